@@ -7,7 +7,9 @@ import (
 	"fmt"
 	"math/big"
 	"sort"
+	"strings"
 
+	"github.com/meshplus/bitxhub-kit/types"
 	"github.com/meshplus/bitxhub/verif/sim"
 )
 
@@ -30,8 +32,8 @@ func hexv(b []byte) string {
 
 func genC13(r *sim.Rand, tier string) *sim.Plan {
 	cfg := C13Config{}
-	switch r.Intn(5) {
-	case 0:
+	switch r.Intn(6) {
+	case 0, 5:
 		cfg.Cache = 0
 	case 1:
 		cfg.Cache = 1
@@ -44,13 +46,19 @@ func genC13(r *sim.Rand, tier string) *sim.Plan {
 	}
 	cfg.NoEmpty = r.Chance(0.6)
 	cfg.NoQuery = r.Chance(0.4)
+	// reads between flush and commit only with the shipped cache sizes: the cache is the only holder of a flushed
+	// block's writes, so an eviction there loses them, but that needs the harness-shrunk sizes to happen
+	cfg.Pipeline = cfg.Cache == 0 && r.Chance(0.8)
 	n := r.Range(10, 80)
 	if tier == "thorough" {
 		n = r.Range(10, 200)
 	}
 	// swarm: per-run op weights
-	ops := []string{"set", "add", "del", "get", "bal", "addbal", "nonce", "code", "getbal", "getnonce", "getcode", "query", "snap", "revert", "txend", "commit", "reopen"}
-	w := []int{12, 4, 5, 14, 3, 2, 2, 2, 3, 2, 3, 8, 4, 4, 4, 5, 2}
+	ops := []string{"set", "add", "del", "get", "bal", "addbal", "nonce", "code", "getbal", "getnonce", "getcode", "query", "snap", "revert", "txend", "commit", "reopen", "flush"}
+	w := []int{12, 4, 5, 14, 3, 2, 2, 2, 3, 2, 3, 8, 4, 4, 4, 5, 2, 0}
+	if cfg.Pipeline {
+		w[len(w)-1] = 5
+	}
 	for i := range w {
 		if r.Chance(0.15) {
 			w[i] = 0
@@ -197,6 +205,28 @@ func execC13(p *sim.Plan, keep bool) *sim.Result {
 	n.commit()
 	m.commit()
 	dirtySinceCommit := false
+	// while a flushed block is not committed its writes live only in the account cache: mismatches in that
+	// window get their own discriminator (and a separate one when the harness made the cache tiny)
+	gap := func() string {
+		if len(n.pending) == 0 {
+			return ""
+		}
+		return "flushed-block-uncommitted"
+	}
+	// storage keys written since the last flush (they are in the dirty set whatever reverts did afterwards)
+	dirtyKeys := map[int]map[string]bool{}
+	markDirty := func(a int, k string) {
+		if dirtyKeys[a] == nil {
+			dirtyKeys[a] = map[string]bool{}
+		}
+		dirtyKeys[a][k] = true
+	}
+	drain := func() {
+		for len(n.pending) > 0 {
+			n.commitPending()
+			m.commitPending()
+		}
+	}
 	for i, raw := range p.Steps {
 		var s LStep
 		if json.Unmarshal(raw, &s) != nil {
@@ -216,17 +246,20 @@ func execC13(p *sim.Plan, keep bool) *sim.Result {
 			v := s.val()
 			n.sl.SetState(ad, []byte(key), v, nil)
 			m.set(s.A, key, v, true)
+			markDirty(s.A, key)
 			dirtySinceCommit = true
 			res.Log.Logf("%d set A%d %s=%x", i, s.A, key, v)
 		case "add":
 			v := s.val()
 			n.sl.AddState(ad, []byte(key), v)
 			m.set(s.A, key, v, true)
+			markDirty(s.A, key)
 			dirtySinceCommit = true
 			res.Log.Logf("%d add A%d %s=%x", i, s.A, key, v)
 		case "del":
 			n.sl.SetState(ad, []byte(key), nil, nil)
 			m.set(s.A, key, nil, true)
+			markDirty(s.A, key)
 			dirtySinceCommit = true
 			res.Log.Logf("%d del A%d %s", i, s.A, key)
 		case "get":
@@ -236,12 +269,18 @@ func execC13(p *sim.Plan, keep bool) *sim.Result {
 			res.Log.Logf("%d get A%d %s -> %v %x", i, s.A, key, ok, v)
 			if ok != mok || !bytes.Equal(v, mv) {
 				d := "value"
-				if mok && len(mv) == 0 {
+				if g := gap(); g != "" {
+					d = g
+					res.Count("probe_mismatch_in_flush_gap")
+				}
+				if (mok && len(mv) == 0) || (ok && len(v) == 0) {
+					// either side is an empty value: same root cause (empty treated as equal to missing at
+					// flush/commit, so neither the empty write nor a later delete of it is propagated)
 					d = "empty-value"
 					res.Count("probe_empty_value_mismatch")
 				}
 				res.Violate("C13", "get", i, d, "GetState(A%d,%q) = (%v,%q), model (latest write) = (%v,%q); cache=%d", s.A, key, ok, v, mok, mv, cfg.Cache)
-				if d == "value" {
+				if d != "empty-value" {
 					return finishC13(res, n, cfg)
 				}
 				// known-defect class: resynchronise the model on this key and go on checking everything else
@@ -283,21 +322,21 @@ func execC13(p *sim.Plan, keep bool) *sim.Result {
 			v := n.sl.GetBalance(ad)
 			res.Log.Logf("%d getbal A%d -> %s", i, s.A, v)
 			if v.Cmp(m.work[s.A].bal) != 0 {
-				res.Violate("C13", "balance", i, "", "GetBalance(A%d) = %s, model = %s; cache=%d", s.A, v, m.work[s.A].bal, cfg.Cache)
+				res.Violate("C13", "balance", i, gap(), "GetBalance(A%d) = %s, model = %s; cache=%d", s.A, v, m.work[s.A].bal, cfg.Cache)
 				return finishC13(res, n, cfg)
 			}
 		case "getnonce":
 			v := n.sl.GetNonce(ad)
 			res.Log.Logf("%d getnonce A%d -> %d", i, s.A, v)
 			if v != m.work[s.A].nonce {
-				res.Violate("C13", "nonce", i, "", "GetNonce(A%d) = %d, model = %d; cache=%d", s.A, v, m.work[s.A].nonce, cfg.Cache)
+				res.Violate("C13", "nonce", i, gap(), "GetNonce(A%d) = %d, model = %d; cache=%d", s.A, v, m.work[s.A].nonce, cfg.Cache)
 				return finishC13(res, n, cfg)
 			}
 		case "getcode":
 			v := n.sl.GetCode(ad)
 			res.Log.Logf("%d getcode A%d -> %x", i, s.A, v)
 			if !bytes.Equal(v, m.work[s.A].code) {
-				res.Violate("C13", "code", i, "", "GetCode(A%d) = %q, model = %q; cache=%d", s.A, v, m.work[s.A].code, cfg.Cache)
+				res.Violate("C13", "code", i, gap(), "GetCode(A%d) = %q, model = %q; cache=%d", s.A, v, m.work[s.A].code, cfg.Cache)
 				return finishC13(res, n, cfg)
 			}
 		case "query":
@@ -326,6 +365,36 @@ func execC13(p *sim.Plan, keep bool) *sim.Result {
 				where := "clean"
 				if dirtySinceCommit {
 					where = "dirty"
+				}
+				if g := gap(); g != "" {
+					where = g
+					// what a query that merges only database and dirty set would answer
+					// (an empty value never reaches the database but is listed from the dirty set: C13/query/empty-value)
+					view := map[string][]byte{}
+					for k, v := range m.committed[s.A].st {
+						if len(v) > 0 {
+							view[k] = v
+						}
+					}
+					for k := range dirtyKeys[s.A] {
+						view[k] = m.work[s.A].st[k]
+					}
+					var dv [][]byte
+					for k, v := range view {
+						if strings.HasPrefix(k, pre) && v != nil {
+							dv = append(dv, v)
+						}
+					}
+					sort.Slice(dv, func(i, j int) bool { return bytes.Compare(dv[i], dv[j]) < 0 })
+					if cls != "[empty-value]" && len(dv) == len(got) {
+						eq := true
+						for j := range dv {
+							eq = eq && bytes.Equal(dv[j], got[j])
+						}
+						if eq {
+							cls = "answers-from-database-and-dirty-set-only"
+						}
+					}
 				}
 				discr := where + "/" + cls
 				if cls == "[empty-value]" {
@@ -357,10 +426,26 @@ func execC13(p *sim.Plan, keep bool) *sim.Result {
 			n.snaps = nil
 			m.txend()
 			res.Log.Logf("%d txend", i)
-		case "commit":
-			root, _ := n.commit()
-			m.commit()
+		case "flush":
+			root := n.flush()
+			m.flush()
+			dirtyKeys = map[int]map[string]bool{}
 			dirtySinceCommit = false
+			res.Count("probe_flush_without_commit")
+			res.Log.Logf("%d flush (pending=%d) root=%s", i, len(n.pending), root.String()[:10])
+		case "commit":
+			var root *types.Hash
+			if len(n.pending) > 0 {
+				// the persist goroutine catches up by one block; the block under execution stays dirty
+				root = n.commitPending()
+				m.commitPending()
+				res.Count("probe_commit_of_flushed_block")
+			} else {
+				root, _ = n.commit()
+				m.commit()
+				dirtyKeys = map[int]map[string]bool{}
+				dirtySinceCommit = false
+			}
 			res.Count("probe_commit")
 			a, b, c := n.cache.VerifCacheLens()
 			if cfg.Cache > 0 && (a >= cfg.Cache || b >= cfg.Cache) {
@@ -369,11 +454,13 @@ func execC13(p *sim.Plan, keep bool) *sim.Result {
 			_ = c
 			res.Log.Logf("%d commit h=%d root=%s", i, n.height, root.String()[:10])
 		case "reopen":
+			drain()
 			if err := n.reopen(); err != nil {
 				res.Violate("C13", "reopen", i, "", "reopen failed: %v", err)
 				return finishC13(res, n, cfg)
 			}
 			m.reopen()
+			dirtyKeys = map[int]map[string]bool{}
 			dirtySinceCommit = false
 			res.Count("probe_reopen")
 			res.Log.Logf("%d reopen h=%d", i, n.height)
